@@ -561,10 +561,27 @@ def run(ctx):
             import os
             from vlib import bootstrap, build
             prov = rng.choice(['compiled', 'compiled', 'json', 'extracted',
-                               'deepcopy'])
-            ev = Evaluator(build.derive(
-                subject.compile_dict(inputs), prov, os.path.join(
-                    bootstrap.VERIF, 'out', 'c14', f's{ctx.shard}.json')))
+                               'deepcopy', 'loaded-under-evaluator'])
+            scratch_ = os.path.join(bootstrap.VERIF, 'out', 'c14',
+                                    f's{ctx.shard}.json')
+            if prov == 'loaded-under-evaluator':
+                # the model is constructed from its file into a Model that
+                # already has an Evaluator (which has evaluated a range)
+                from xlcalculator import Model
+                os.makedirs(os.path.dirname(scratch_), exist_ok=True)
+                subject.compile_dict(inputs).persist_to_json_file(scratch_)
+                host = subject.compile_dict({'A1': 1, 'A2': 2,
+                                             'H1': '=SUM(A1:A2)'}) \
+                    if rng.random() < 0.5 else Model()
+                ev = Evaluator(host)
+                if host.cells:
+                    subject.outcome_of(lambda: ev.evaluate(f'{S}!H1'))
+                host.construct_from_json_file(scratch_, build_code=True)
+                os.remove(scratch_)
+                ctx.event('models_loaded_under_an_evaluator')
+            else:
+                ev = Evaluator(build.derive(
+                    subject.compile_dict(inputs), prov, scratch_))
             if prov != 'compiled':
                 ctx.event('derived_models')
         except Exception as e:  # noqa
